@@ -43,7 +43,8 @@ type rsock struct {
 }
 
 type world struct {
-	queueSize int // RouterConfig.QueueSize for routers created from now on (0 = unlimited)
+	queueSize int           // RouterConfig.QueueSize for routers created from now on (0 = unlimited)
+	minDelay  time.Duration // RouterConfig.MinDelay for routers created from now on
 	m         *mWorld
 	routers   map[string]*vnet.Router
 	mrouters  map[string]*mRouter
@@ -59,7 +60,7 @@ func newWorld() *world {
 }
 
 func (w *world) router(name, cidr, parent string, nat *natSpec, statics []string) {
-	cfg := &vnet.RouterConfig{Name: name, CIDR: cidr, LoggerFactory: logging.NewDefaultLoggerFactory(), StaticIPs: statics, QueueSize: w.queueSize}
+	cfg := &vnet.RouterConfig{Name: name, CIDR: cidr, LoggerFactory: logging.NewDefaultLoggerFactory(), StaticIPs: statics, QueueSize: w.queueSize, MinDelay: w.minDelay}
 	if nat != nil {
 		if nat.oneToOne {
 			cfg.NATType = &vnet.NATType{Mode: vnet.NATModeNAT1To1}
@@ -613,10 +614,15 @@ func c01rebind(bound int) *explore.Scenario {
 	return sc
 }
 
-func c01concurrent(nat natSpec, nSenders, per, bound int, strict bool, queue int) *explore.Scenario {
+func c01concurrent(nat natSpec, nSenders, per, bound int, strict bool, queue int, delay ...time.Duration) *explore.Scenario {
 	name := fmt.Sprintf("concurrent nat=%s senders=%d x%d", nat, nSenders, per)
 	if queue > 0 {
 		name += fmt.Sprintf(" queue=%d", queue)
+	}
+	var minDelay time.Duration
+	if len(delay) > 0 {
+		minDelay = delay[0]
+		name += fmt.Sprintf(" router-delay=%v", minDelay)
 	}
 	if strict {
 		name += " [strict deviations]"
@@ -635,6 +641,7 @@ func c01concurrent(nat natSpec, nSenders, per, bound int, strict bool, queue int
 		body := func() {
 			w = newWorld()
 			w.queueSize = queue
+			w.minDelay = minDelay
 			w.router("root", "1.2.3.0/24", "", nil, nil)
 			var st []string
 			if nat.oneToOne {
@@ -650,7 +657,7 @@ func c01concurrent(nat natSpec, nSenders, per, bound int, strict bool, queue int
 			if err := w.routers["root"].Start(); err != nil {
 				panic(err)
 			}
-			zzvsched.WaitQuiet(time.Millisecond)
+			zzvsched.WaitQuiet(time.Millisecond + 4*minDelay)
 			dst := &net.UDPAddr{IP: net.ParseIP("1.2.3.10"), Port: 7000}
 			for i, s := range senders {
 				i, s := i, s
@@ -668,7 +675,7 @@ func c01concurrent(nat natSpec, nSenders, per, bound int, strict bool, queue int
 					done++
 				})
 			}
-			zzvsched.WaitQuiet(time.Millisecond)
+			zzvsched.WaitQuiet(time.Millisecond + 4*minDelay)
 			// everything written must have arrived by now: later traffic (the replies below) must not be
 			// what pushes a stranded datagram through
 			if done == nSenders && len(sink.got) != nSenders*per && (queue == 0 || nSenders*per < queue) && viol == nil {
@@ -691,7 +698,7 @@ func c01concurrent(nat natSpec, nSenders, per, bound int, strict bool, queue int
 					viol = &explore.Violation{Sig: "C01 write-failed", Msg: name + ": reply: " + err.Error()}
 					return
 				}
-				zzvsched.WaitQuiet(time.Millisecond)
+				zzvsched.WaitQuiet(time.Millisecond + 4*minDelay)
 				if viol != nil {
 					return
 				}
@@ -794,6 +801,8 @@ func init() {
 				// and with a bound of 1 whatever arrives is still intact, in order, once
 				out = append(out, c01concurrent(nats[0], 2, 2, 2, true, 5), c01concurrent(nats[0], 2, 2, 2, true, 1))
 				out = append(out, c01closing(2, 2, true), c01closing(1, 1, false), c01rebind(2))
+				// routers that delay: nothing may be left behind in a queue
+				out = append(out, c01concurrent(nats[0], 2, 2, 2, true, 0, time.Millisecond))
 				return out
 			}
 			out = append(out, c01plan(c01topos[0], nats[0], 3, 0, 0))
@@ -811,6 +820,7 @@ func init() {
 				out = append(out, c01concurrent(n, 2, 1, 1, false, 0))
 			}
 			out = append(out, c01closing(2, 3, true), c01closing(2, 1, false), c01closing(1, 2, false), c01rebind(3))
+			out = append(out, c01concurrent(nats[0], 2, 2, 3, true, 0, time.Millisecond), c01concurrent(nats[9], 3, 2, 2, true, 0, 20*time.Millisecond))
 			return out
 		},
 		Rule:        "topologies {root only; root+LAN; root+2 sibling LANs; root+LAN+nested LAN} with static / automatic / two-address hosts and sockets bound to a specific address, the wildcard, port 0 or dialled, x NAT {9 mapping/filtering combinations, 1:1} x every traffic plan of 2-3 sends over (sending socket) x (every socket address on every network, unbound port, unroutable IPs, loopback, the LAN's own external address, 'the source last observed by socket k'), payload sizes {1500,0,1}, sender buffer overwritten after WriteTo; after each send the system runs to quiescence and every socket's new receptions are compared with the routing/NAT model. Plus 2-3 concurrent senders x 2 datagrams through one NAT to one socket under every schedule within the deviation bound, followed by a reply to every observed source. Plus: one socket of the receiving host is closed while datagrams for it and for a second open socket of that host are in flight (the open socket must receive everything; Close returns; no thread stays blocked on a lock); a socket closed from two threads at once while a third binds its address again (the new socket then receives what is sent there and the address cannot be bound a second time).",
